@@ -80,7 +80,8 @@ class World:
             os.makedirs(os.path.join(self.top, self.package, "static"))
             open(os.path.join(self.top, self.package, "__init__.py"), "w").close()
             self.dir = os.path.join(self.top, self.package, "static")
-        self.path = os.path.join(self.dir, "x.html")
+        self.fname = (settings or {}).get("name", "x.html")
+        self.path = os.path.join(self.dir, self.fname)
         self.vstat = VStat(self.dir)
         self.clock = T0 if t0 is None else t0
         self.version = 0
@@ -95,6 +96,8 @@ class World:
 
         kw = dict(settings or {})
         kw.pop("package", None)
+        kw.pop("name", None)
+        kw.pop("future", None)
         if self.package:
             import importlib
             sys.path.insert(0, self.top)
@@ -149,7 +152,7 @@ class World:
 
     def request(self, key, headers, method="GET"):
         iface, kind = key
-        path = "/x.html" if kind == "Files" else "/x"
+        path = "/" + self.fname if kind == "Files" else "/" + self.fname[:-len(".html")]
         req = SV.AReq(method=method, path=path, headers=headers)
         app = self.apps[key]
         if iface == "wsgi":
@@ -193,12 +196,15 @@ def validator_headers(form, v):
 
 # (fraction of a second on the file clock, process time zone, application settings)
 VARIANTS = [(0.0, None, None), (0.6, None, None), (0.0, "America/New_York", None), (0.25, "Asia/Shanghai", None),
-            (0.0, None, {"package": True}), (0.0, None, {"cacheability": "no-cache"}), (0.0, None, {"cacheability": "private", "max_age": 0}), (0.0, None, {"cacheability": "no-store", "max_age": 1})]
+            (0.0, None, {"package": True}), (0.0, None, {"name": "app.3f2a9c1bdeadbeef.html"}), (0.0, None, {"name": "lib-0123456789abcdef0123456789abcdef.min.html"}), (0.0, None, {"future": True}), (0.0, None, {"cacheability": "no-cache"}), (0.0, None, {"cacheability": "private", "max_age": 0}), (0.0, None, {"cacheability": "no-store", "max_age": 1})]
 
 
 def run_history(hist, r, collect_only=False, variant=0):
     """hist: tuple of (mod_index or None, battery: bool). Index None = initial state step. Returns list of problems."""
     frac, tz, settings = VARIANTS[variant]
+    if settings and settings.get("future"):
+        import time as _t
+        frac = int(_t.time()) + 3600 - T0  # the file's times lie an hour ahead of the wall clock (a copied tree, a skewed clock)
     w = World(t0=T0 + frac, tz=tz, settings=settings)
     problems = []
     try:
